@@ -2,7 +2,9 @@
 
    State of a table-like container = the raw entries of its `items: IndexMap<Key, Item>` in
    storage order, INCLUDING the placeholder entries (`Item::None`) that mutable indexing
-   leaves behind.  Every branch below names the Rust function it transcribes; the filters
+   leaves behind (after the repair of C16-placeholder-residue every write / entry path first
+   drops the placeholder under its key: `remove_placeholder`, see `prep`).
+   Every branch below names the Rust function it transcribes; the filters
    (`!value.is_none()`, `as_value()`, `is_value()`) are modelled exactly where the Rust
    methods have them and nowhere else.
 
@@ -112,6 +114,38 @@ Definition into_value (i : item) : option item :=
 Definition hack (i : item) : item := match into_value i with Some v => v | None => IReal PInl end.
 
 Definition visible (c : imap item) : imap item := im_retain (fun _ i => negb (is_none i)) c.
+
+(* the decidable test "the entry stored under k is a placeholder" *)
+Definition ph (k : bytes) (c : imap item) : bool :=
+  match im_get k c with Some INone => true | _ => false end.
+Definition anyph (c : imap item) : bool := existsb (fun kv => is_none (snd kv)) c.
+
+(* table.rs: Table::remove_placeholder / inline_table.rs: InlineTable::remove_placeholder —
+   `if let Some(Item::None) = self.items.get(key) { self.items.shift_remove(key); }` *)
+Definition purge (k : bytes) (c : imap item) : imap item :=
+  if ph k c then im_shift_remove k c else c.
+
+(* Extend for Table / InlineTable: `for (key, value) in iter { self.remove_placeholder(key.get());
+   self.items.insert(key, value); }` *)
+Fixpoint im_extend_p (l : list (bytes * item)) (m : imap item) : imap item :=
+  match l with
+  | [] => m
+  | (k, v) :: l' => im_extend_p l' (im_insert k v (purge k m))
+  end.
+
+(* which methods start with `self.remove_placeholder(key)`:
+     Table:        entry, entry_format, insert, insert_formatted, remove, remove_entry
+                   (and through entry: IndexMut<&str> for Table, `impl Index for str`::index_mut on a table)
+     InlineTable:  entry, entry_format, insert, insert_formatted, get_or_insert,
+                   TableLike::entry / entry_format, and `impl Index for str`::index_mut on an inline table
+   (InlineTable::remove / remove_entry need none: `.and_then(|v| v.into_value().ok())` drops the placeholder) *)
+Definition prep (kd : mkind) (o : mop) (c : imap item) : imap item :=
+  match o with
+  | MIns k _ | MInsF k _ | MEnt k | MEoi k _ | MEins k _ | MErm k | MGoi k _
+  | MIdxM k | MISet k _ | MIoi k _ => purge k c
+  | MRm k | MRmE k => match kd with KTable => purge k c | _ => c end
+  | _ => c
+  end.
 Definition only_values (c : imap item) : imap item := im_retain (fun _ i => is_value i) c.
 
 (* the comparators handed to IndexMap::sort_by *)
@@ -172,8 +206,8 @@ Fixpoint t_values (c : imap item) : list (bytes * pay) :=
   | (_, INone) :: c' => t_values c'
   end.
 
-Definition tstep (kd : mkind) (c : imap item) (o : mop) : imap item * out :=
-  if negb (avail kd o) then (c, ONA) else
+(* one call on the state left by its `remove_placeholder` (prep) *)
+Definition tbody (kd : mkind) (c : imap item) (o : mop) : imap item * out :=
   let nv p := IReal (norm kd p) in
   match o with
   | MIns k p | MInsF k p =>
@@ -197,7 +231,9 @@ Definition tstep (kd : mkind) (c : imap item) (o : mop) : imap item * out :=
   | MCt k => (c, OBool (match im_get k c with Some i => is_table i | None => false end))
   | MCv k => (c, OBool (match im_get k c with Some i => is_value i | None => false end))
   | MCa k => (c, OBool false)     (* no array of tables is ever stored *)
-  | MKey k => (c, OBool (is_some (im_get k c)))   (* key(): `self.items.get_full(key)` — no filter *)
+  | MKey k =>
+    (* key(): `self.items.get_full(key).filter(|(_, _, value)| !value.is_none())` *)
+    (c, OBool (match im_get k c with Some i => negb (is_none i) | None => false end))
   | MLen => (c, ONat (t_len c))
   | MEmp => (c, OBool (Nat.eqb (t_len c) 0))
   | MIter => (c, OList (t_iter kd c))
@@ -274,43 +310,23 @@ Definition tstep (kd : mkind) (c : imap item) (o : mop) : imap item * out :=
     | Some i => if is_none i then (im_insert k (nv p) c, OItem (nv p)) else (c, OItem i)
     | None => (im_insert k (nv p) c, OItem (nv p))
     end
-  | MExt l => (im_extend (map (fun kv => (fst kv, nv (snd kv))) l) c, OUnit)
-  | MFrom l => (im_extend (map (fun kv => (fst kv, nv (snd kv))) l) [], OUnit)
+  | MExt l => (im_extend_p (map (fun kv => (fst kv, nv (snd kv))) l) c, OUnit)
+  | MFrom l => (im_extend_p (map (fun kv => (fst kv, nv (snd kv))) l) [], OUnit)
   | MInto =>
     (c, OList (match kd with
-               | KTable => c                  (* IntoIterator for Table: `self.items.into_iter()` — NO filter *)
+               | KTable => visible c          (* IntoIterator for Table: `.filter(|(_, value)| !value.is_none())` *)
                | _ => only_values c           (* IntoIterator for InlineTable: `.filter(|(_, value)| value.is_value())` *)
                end))
   end.
+
+Definition tstep (kd : mkind) (c : imap item) (o : mop) : imap item * out :=
+  if negb (avail kd o) then (c, ONA) else tbody kd (prep kd o c) o.
 
 Definition tobserve (kd : mkind) (ks : list bytes) (c : imap item) : obs :=
   mkObs (t_len c) (Nat.eqb (t_len c) 0) (t_iter kd c)
         (map (fun k => (k, t_get kd k c)) ks)
         (map (fun k => (k, t_ck kd k c)) ks)
         (t_values c).
-
-(* ---- the decidable class "this call meets a placeholder in a way that shows it" ---- *)
-Definition ph (k : bytes) (c : imap item) : bool :=
-  match im_get k c with Some INone => true | _ => false end.
-Definition anyph (c : imap item) : bool := existsb (fun kv => is_none (snd kv)) c.
-
-Definition tsens (kd : mkind) (c : imap item) (o : mop) : bool :=
-  avail kd o &&
-  match o with
-  | MIns k _ | MInsF k _ | MKey k | MEnt k | MEoi k _ | MEins k _ | MErm k | MGoi k _ | MISet k _ | MIoi k _ => ph k c
-  | MRm k | MRmE k => match kd with KTable => ph k c | _ => false end
-  | MInto => match kd with KTable => anyph c | _ => false end
-  | MExt l => existsb (fun kv => ph (fst kv) c) l
-  | _ => false
-  end.
-
-(* first sensitive call of a history (None = the history is not in the class) *)
-Fixpoint first_sens (kd : mkind) (c : imap item) (h : list mop) : option mop :=
-  match h with
-  | [] => None
-  | o :: h' => if tsens kd c o then Some o else first_sens kd (fst (tstep kd c o)) h'
-  end.
-Definition touches_placeholder (kd : mkind) (h : list mop) : bool := is_some (first_sens kd [] h).
 
 (* ------------------------------------------------------------------------------------ *)
 (** * toml::map::Map<String, Value> (map.rs): every method delegates to BTreeMap
